@@ -363,3 +363,32 @@ theorem rank_iff_IC' [Field K] (per : List (List (List K × K))) (A : Mat K m n)
     simpa using e
 
 end QM.C08
+
+/-! ## inexact inverse -/
+open Matrix
+namespace QM.C09
+variable {K : Type} {m n : Nat}
+
+/-- exact data through an inexact inverse: the error is `(G·AᵀA − 1)·v₀` -/
+theorem m_exact_err [Field K] (G : Matrix (Fin n) (Fin n) K) (A : Matrix (Fin m) (Fin n) K)
+    (b : Fin m → K) (v0 : Fin n → K) :
+    (G * Aᵀ) *ᵥ ((A *ᵥ v0 + b) - b) - v0 = (G * (Aᵀ * A) - 1) *ᵥ v0 := by
+  rw [add_sub_cancel_right, Matrix.mulVec_mulVec, Matrix.mul_assoc, Matrix.sub_mulVec, Matrix.one_mulVec]
+
+/-- arbitrary data through an inexact inverse: the normal-equation residual is `((AᵀA)·G − 1)·Aᵀ(f − b)` -/
+theorem m_normal_err [Field K] (G : Matrix (Fin n) (Fin n) K) (A : Matrix (Fin m) (Fin n) K)
+    (b f : Fin m → K) :
+    Aᵀ *ᵥ (A *ᵥ ((G * Aᵀ) *ᵥ (f - b)) + b - f) = ((Aᵀ * A) * G - 1) *ᵥ (Aᵀ *ᵥ (f - b)) := by
+  have e : A *ᵥ ((G * Aᵀ) *ᵥ (f - b)) + b - f = A *ᵥ ((G * Aᵀ) *ᵥ (f - b)) - (f - b) := by abel
+  rw [e, Matrix.mulVec_sub, Matrix.mulVec_mulVec, Matrix.sub_mulVec, Matrix.one_mulVec, Matrix.mulVec_mulVec,
+    Matrix.mul_assoc, Matrix.mul_assoc, Matrix.mulVec_mulVec]
+  simp only [Matrix.mul_assoc]
+
+theorem m_entry_bound [Field K] [LinearOrder K] [IsStrictOrderedRing K] (E : Matrix (Fin n) (Fin n) K)
+    (x : Fin n → K) (δ : K) (hE : ∀ i j, |E i j| ≤ δ) (i : Fin n) : |(E *ᵥ x) i| ≤ δ * ∑ j, |x j| := by
+  simp only [Matrix.mulVec, dotProduct]
+  rw [Finset.mul_sum]
+  refine (Finset.abs_sum_le_sum_abs _ _).trans (Finset.sum_le_sum fun j _ => ?_)
+  rw [abs_mul]
+  exact mul_le_mul_of_nonneg_right (hE i j) (abs_nonneg _)
+end QM.C09
